@@ -600,6 +600,24 @@ Definition run_client (e : sexp) : sexp :=
              sB (match v' with Some kv => vars_reach_unset kv | None => false end)]
       | _, _, _, _ => sErr "execute: bad arguments"
       end
+  | L [A "constants"] =>
+      (* the literal data of the model, compared on every run with what the harness reads off /repo's source *)
+      let c := mk_call "q" None None None None in
+      let cm := mk_call "q" None (Some [("f", VUpload 0)]) None None in
+      let keys j := match j with JObj kv => L (map (fun p => A (fst p)) kv) | _ => sErr "not an object" end in
+      let span_desc sp := L [A (sp_name sp); L (map (fun p => A (fst p)) (sp_attrs sp))] in
+      L [L [A "default_headers"; sHeaders default_headers];
+         L [A "content_type_probe"; A "content-type"; sB (has_ct [("content-type", "")]); sB (has_ct [("Content-Type", "")])];
+         L [A "body_keys"; keys (body_json "" None JNull)];
+         L [A "path_root_and_separator"; A (render_path []); A (render_path [SKey "k"; SIdx 0])];
+         L [A "multipart_fields";
+            match build_request "u" cm with
+            | RMultipart _ _ _ ops fm fs => L [keys ops; keys fm; L (map (fun p => A (fst p)) fs)]
+            | _ => sErr "no multipart" end];
+         L [A "spans_json"; L (map span_desc (fst (execute_with_telemetry "GraphQL Operation" "u" c)))];
+         L [A "spans_multipart"; L (map span_desc (fst (execute_with_telemetry "GraphQL Operation" "u" cm)))];
+         L [A "component"; json_to_sexp (snd component_attr)];
+         L [A "opname_none_attr"; json_to_sexp (opname_attr None)]]
   | L [A "sent_bytes"; A content; pos; seekable] =>
       match dNat pos, dB seekable with
       | Some n, Some b =>
